@@ -421,8 +421,8 @@ func realSignalRun(bin string, sc *Scenario, p int, spec string) (DirState, int,
 			return nil, 0, stderr.String(), err
 		}
 		return SnapshotDir(dir), code, stderr.String(), nil
-	case <-time.After(60 * time.Second):
+	case <-time.After(15 * time.Second):
 		_ = cmd.Process.Kill()
-		return nil, 0, stderr.String(), fmt.Errorf("real process did not terminate within 60 s after plan %s", spec)
+		return nil, 0, stderr.String(), fmt.Errorf("real process did not terminate within 15 s after plan %s", spec)
 	}
 }
